@@ -34,7 +34,7 @@ fn extras_from(picks: &[(u8, u8, u8, u8)], n: usize, nodes: &[Node]) -> Vec<Vec<
         let id = format!("x{k}");
         // a referrer may also point at the previous extra, so that extras form chains of their own
         let prev = if k > 0 && m % 2 == 0 { format!("x{}", k - 1) } else { id_of(ta) };
-        let v: Vec<(String, String)> = match kind % 10 {
+        let v: Vec<(String, String)> = match kind % 12 {
             // offsets / size deltas computed from another element: the element is not laid out until they resolve
             5 => vec![("_el".into(), "rect".into()), ("id".into(), id), ("x".into(), format!("{}", m % 11)), ("y".into(), format!("{}", m % 7)), ("width".into(), "5".into()), ("height".into(), "4".into()),
                       ((if m % 3 == 0 { "dx" } else if m % 3 == 1 { "dy" } else { "dxy" }).into(), format!("{{{{#{}~w}}}}", id_of(tb)))],
@@ -43,6 +43,14 @@ fn extras_from(picks: &[(u8, u8, u8, u8)], n: usize, nodes: &[Node]) -> Vec<Vec<
             8 => vec![("_el".into(), "rect".into()), ("id".into(), id), ("xy".into(), format!("#{prev}@br")), ("width".into(), "6".into()), ("height".into(), "3".into()), ("dw".into(), format!("{{{{#{}~h / 2}}}}", id_of(tb)))],
             // an instance placed by an anchor that needs the target's size (the target may itself still await layout)
             9 => vec![("_el".into(), "use".into()), ("id".into(), id), ("href".into(), format!("#{prev}")), ((if m % 3 == 0 { "cxy" } else if m % 3 == 1 { "xy2" } else { "xy" }).into(), format!("{} {}", 20 + m % 13, 30 + m % 5))],
+            // the same, placed one axis at a time (and by a value taken from another element)
+            10 => {
+                let (ax, ay) = [("cx", "cy"), ("x2", "y2"), ("x", "y2"), ("cx", "y")][(m / 3) as usize % 4];
+                vec![("_el".into(), "use".into()), ("id".into(), id), ("href".into(), format!("#{prev}")), (ax.into(), format!("{{{{#{}~x2 + {}}}}}", id_of(tb), 20 + m % 13)), (ay.into(), format!("{}", 30 + m % 5))]
+            }
+            // native geometry, moved by a transform whose amount is taken from another element
+            11 => vec![("_el".into(), "rect".into()), ("id".into(), id), ("x".into(), format!("{}", m % 11)), ("y".into(), format!("{}", m % 7)), ("width".into(), "5".into()), ("height".into(), "4".into()),
+                       ("transform".into(), format!("translate({{{{#{}~w}}}} {})", id_of(tb), m % 4))],
             0 => vec![("_el".into(), "rect".into()), ("id".into(), id), ("surround".into(), format!("#{} #{}", id_of(ta), id_of(tb))), ("margin".into(), format!("{}", m % 5))],
             1 => vec![("_el".into(), "line".into()), ("id".into(), id), ("start".into(), format!("#{}", id_of(ta))), ("end".into(), format!("#{}", id_of(tb)))],
             2 => vec![("_el".into(), "polyline".into()), ("id".into(), id), ("start".into(), format!("#{}@r", id_of(ta))), ("end".into(), format!("#{}@l", id_of(tb)))],
